@@ -3,10 +3,12 @@
 
   Objects:
   * `Gen/Ode.lean` (regenerated from `/repo/src/grid/ode.py` on every run): `coeffB_<K>_<j>` (the rows of
-    `coeff_b` computed by `_transform_ode_from_derivs`), `derivMatrix` (loop nest of
-    `_derivative_transformation_matrix`), `rearrangeToExplicitOde`, `transformAndRearrange`;
-  * `Model/Ode.lean`, `Model/OdeSolve.lean` (hand-written, tied by correspondence): SymPy's `bell`, the
-    callbacks `func` / `bc` handed to SciPy, the initial-data mapping, the returned callable.
+    `coeff_b` computed by `_transform_ode_from_derivs`), `derivMatrix` / `derivativeTransformationMatrix` (loop nest of
+    `_derivative_transformation_matrix`), `rearrangeToExplicitOde`, `transformAndRearrange`,
+    `evaluateCoeffsOnPoints`, and — since round 2 — the bodies of the public functions and their callbacks:
+    `ivpFunc`, `bvpFunc`, `bvpBc`, `ivpTransformSetup`, `solveOdeIvp`, `solveOdeBvp`,
+    `transformSolutionToOriginalDomain` (SciPy's `solve_ivp`, `solve_bvp`, `linalg.solve` are named parameters);
+  * `Model/Ode.lean` (hand-written, tied by correspondence): SymPy's `bell`, NumPy plumbing, the argument types.
 
   The transform is abstract: a record `T : TransformFns ℝ` of the five functions the code reads
   (`transform = g`, `inverse`, `deriv = g'`, `deriv2 = g''`, `deriv3 = g'''`) with `HasDerivAt` hypotheses on
@@ -36,7 +38,7 @@ structure Admissible (T : TransformFns ℝ) (s : Set ℝ) : Prop where
 
 /-- The running example: `r = g(x) = eˣ` on the whole line (all of `g', g'', g'''` non-zero, nothing
 cancels). -/
-noncomputable def expT : TransformFns ℝ := ⟨Real.exp, Real.log, Real.exp, Real.exp, Real.exp⟩
+noncomputable def expT : TransformFns ℝ := ⟨Real.exp, Real.log, Real.exp, Real.exp, Real.exp, (-1000, 1000)⟩
 
 theorem expT_admissible : Admissible expT Set.univ :=
   ⟨isOpen_univ, fun x _ => Real.hasDerivAt_exp x, fun x _ => Real.hasDerivAt_exp x,
